@@ -1157,7 +1157,7 @@ func (s *PrintCtx) pcAppendStringKey(str string) {
 		// s.WriteString(strconv.Quote(str))
 		// s.Grow(2 + len([]byte(str)))
 		s.checkerr(s.WriteByte('"'))
-		_, _ = s.WriteString(str)
+		s.appendEscapedJSONString(str)
 		s.checkerr(s.WriteByte('"'))
 	} else {
 		_, _ = s.WriteString(str)
